@@ -29,11 +29,11 @@ ASSUMPTIONS = ['the segments\' own point() is the reference (C03/C04)',
 TIERS = {
     'quick': {'shards': 14, 'random': 5000, 'timeout': 900, 'min_cases': 3000, 'max_timeouts': 10,
               'require_branches': ['cfg:crossing', 'cfg:tangent', 'cfg:endpoint', 'cfg:near-miss', 'cfg:axis-aligned',
-                                   'cfg:paths', 'cfg:ellipse-axis-line', 'paths:requery-after-edit', 'pair:Arc-Arc', 'pair:CubicBezier-CubicBezier', 'pair:Line-Arc',
+                                   'cfg:paths', 'cfg:ellipse-axis-line', 'cfg:far-arc-line', 'far-from-origin', 'paths:requery-after-edit', 'pair:Arc-Arc', 'pair:CubicBezier-CubicBezier', 'pair:Line-Arc',
                                    'reported>=1']},
     'thorough': {'shards': 14, 'random': 200000, 'timeout': 3400, 'min_cases': 100000, 'max_timeouts': 200,
                  'require_branches': ['cfg:crossing', 'cfg:tangent', 'cfg:endpoint', 'cfg:near-miss', 'cfg:axis-aligned',
-                                      'cfg:paths', 'cfg:ellipse-axis-line', 'paths:requery-after-edit', 'pair:Arc-Arc', 'pair:CubicBezier-CubicBezier', 'pair:Line-Arc',
+                                      'cfg:paths', 'cfg:ellipse-axis-line', 'cfg:far-arc-line', 'far-from-origin', 'paths:requery-after-edit', 'pair:Arc-Arc', 'pair:CubicBezier-CubicBezier', 'pair:Line-Arc',
                                       'reported>=1']},
 }
 CASE_TIMEOUT = 20
@@ -287,6 +287,34 @@ def cases(ctx):
         cfg = rng.choice(['crossing', 'crossing', 'tangent', 'endpoint', 'random', 'near-miss', 'axis-aligned', 'paths'])
         if rng.random() < 0.05:
             cfg = 'ellipse-axis-line'
+        elif rng.random() < 0.05:
+            cfg = 'far-arc-line'
+        if cfg == 'far-arc-line':
+            # a small unrotated arc 1e5 .. 1e6 radii away from the origin, crossed by a line close to one of the
+            # arc's (or the line's) end points
+            r = rng.uniform(1, 20)
+            rx, ry = (r, r) if rng.random() < 0.5 else (r, r * rng.uniform(0.4, 2.5))
+            c = min(r * 10.0 ** rng.uniform(5, 6.3), 5e6) * cmath.exp(1j * rng.uniform(0, 2 * math.pi))
+            a0 = rng.uniform(0, 2 * math.pi)
+            a1 = a0 + rng.uniform(0.5, 1.9) * math.pi
+
+            def on(th):
+                return c + complex(rx * math.cos(th), ry * math.sin(th))
+            st, en = on(a0), on(a1)
+            sa = ['A', [st.real, st.imag], [rx, ry], 0, (a1 - a0) > math.pi, True, [en.real, en.imag]]
+            u = rng.choice([rng.uniform(0.005, 0.08), 1 - rng.uniform(0.005, 0.08), rng.uniform(0.1, 0.9)])
+            th = a0 + u * (a1 - a0)
+            x = on(th)
+            nrm = complex(rx * math.cos(th), ry * math.sin(th))
+            d = nrm / abs(nrm) * cmath.exp(1j * rng.uniform(-0.9, 0.9))
+            v = rng.choice([rng.uniform(0.01, 0.1), rng.uniform(0.2, 0.8)])
+            Ln = r * rng.uniform(0.5, 3)
+            p0, p1 = x - d * Ln * v, x + d * Ln * (1 - v)
+            sb = ['L', [p0.real, p0.imag], [p1.real, p1.imag]]
+            if rng.random() < 0.5:
+                sa, sb = sb, sa
+            yield {'kind': 'pair', 'a': sa, 'b': sb, 'cls': ['cfg:far-arc-line', 'pair:AL', 'far-from-origin']}
+            continue
         simple = (ka == 'A' and kb == 'A' and rng.random() < 0.7)
         if cfg in ('crossing', 'near-miss', 'endpoint'):
             made = I.make_crossing(rng, ka, kb, scale, simple_arcs=simple)
@@ -306,7 +334,16 @@ def cases(ctx):
                     pB0 = complex(B.start)
                     pA = complex(gen.seg(sa).point(tA))
                 sb = I.shift_spec(sb, pA - pB0)
-            yield {'kind': 'pair', 'a': sa, 'b': sb, 'cls': ['cfg:' + cfg, 'pair:%s%s' % (ka, kb)]}
+            cls = ['cfg:' + cfg, 'pair:%s%s' % (ka, kb)]
+            if rng.random() < 0.12:
+                # the same figure far from the origin (1e4 .. 3e6 times its size away): nothing about an
+                # intersection depends on where the origin is
+                # (capped at 5e6 so that one ulp of a coordinate, 1e-9, stays far below the absolute 1e-6 the
+                # library's own consistency assertions use: at 2e9 those fail from rounding alone)
+                far = min(scale * 10.0 ** rng.uniform(4, 6.5), 5e6) * cmath.exp(1j * rng.uniform(0, 2 * math.pi))
+                sa, sb = I.shift_spec(sa, far), I.shift_spec(sb, far)
+                cls.append('far-from-origin')
+            yield {'kind': 'pair', 'a': sa, 'b': sb, 'cls': cls}
         elif cfg == 'tangent':
             sa = I.rand_seg_spec(rng, ka, scale, 0j, simple)
             A = gen.seg(sa)
@@ -379,6 +416,8 @@ def cases(ctx):
 
 def run_case(ctx, case):
     ctx.branch(case['cls'][0])
+    if 'far-from-origin' in case['cls']:
+        ctx.branch('far-from-origin')
     if case['kind'] == 'pair':
         a, b = gen.seg(case['a']), gen.seg(case['b'])
         if a == b:
